@@ -149,14 +149,18 @@ func vInts(l []int) *val {
 	return v
 }
 
-// vTime: _ for the zero time, else ( unix off nanos year month day hour min sec weekday )
+// vTime: _ for the zero time, else ( unix off nanos year month day hour min sec weekday [zone-name] )
 func vTime(t time.Time) *val {
 	if t.IsZero() {
 		return vNil()
 	}
-	_, off := t.Zone()
-	return vL(vI(t.Unix()), vI(int64(off)), vN(uint64(t.Nanosecond())), vI(int64(t.Year())), vN(uint64(t.Month())), vN(uint64(t.Day())),
+	name, off := t.Zone()
+	v := vL(vI(t.Unix()), vI(int64(off)), vN(uint64(t.Nanosecond())), vI(int64(t.Year())), vN(uint64(t.Month())), vN(uint64(t.Day())),
 		vN(uint64(t.Hour())), vN(uint64(t.Minute())), vN(uint64(t.Second())), vN(uint64(t.Weekday())))
+	if name != "" {
+		v.add(vS(name)) // the zone's name (abbreviation): a backend may hand over times in named locations
+	}
+	return v
 }
 
 func vAddrs(l []imap.Address) *val {
@@ -414,7 +418,14 @@ func gTime(v *val) time.Time {
 		return time.Time{}
 	}
 	off := int(v.at(1).i64())
-	return time.Unix(v.at(0).i64(), int64(v.at(2).n)).In(time.FixedZone("", off))
+	name := ""
+	if len(v.kids) > 10 {
+		name = v.at(10).s
+	}
+	if name == "UTC" && off == 0 {
+		return time.Unix(v.at(0).i64(), int64(v.at(2).n)).UTC()
+	}
+	return time.Unix(v.at(0).i64(), int64(v.at(2).n)).In(time.FixedZone(name, off))
 }
 
 func gAddrs(v *val) []imap.Address {
